@@ -613,7 +613,9 @@ fn monitor(script: &Script, legacy: bool, keepalive: bool, log: &[WsEv], rlog: &
                     None => {
                         if callback_failed && !legacy {
                             // a rejected init or a failed ping callback: any close code
-                        } else if keepalive && *code == 3008 && !legacy {
+                        } else if keepalive && !legacy && (*code == 3008 || (*code == 4408 && !acked)) {
+                            // the library's keep-alive close; 4408 is the protocol's "connection
+                            // initialisation timeout", legal while the connection is not acknowledged
                             sim::count("probe:keepalive-fired");
                         } else {
                             fail!("C25/unexpected-close", "close {code} without a reason");
@@ -656,6 +658,8 @@ fn monitor(script: &Script, legacy: bool, keepalive: bool, log: &[WsEv], rlog: &
         if let Some(p) = &due_close {
             fail!("C25/missing-close", "the connection is still open at quiescence although the protocol requires closing it ({:?})", p);
         }
+        // the echo of a client's complete is optional (graphql-transport-ws does not ask for it)
+        obl.retain(|e| !matches!(e, Expect::CompleteFor(_)));
         if !obl.is_empty() && !keepalive {
             fail!("C25/stall", "{:?} still outstanding at quiescence", obl);
         }
@@ -665,9 +669,14 @@ fn monitor(script: &Script, legacy: bool, keepalive: bool, log: &[WsEv], rlog: &
         for (id, op) in &live {
             match &op.kind {
                 OpKind::Sub(ch) => {
-                    let d = delivered_events.get(ch).map(|v| v.len()).unwrap_or(0);
-                    if d > op.nexts {
-                        fail!("C25/stall", "operation '{id}' still has {} undelivered events at quiescence", d - op.nexts);
+                    // the event delivered last must have been forwarded (a lost wake-up leaves it stuck);
+                    // earlier events are not judged: the property promises no delivery
+                    let d = delivered_events.get(ch).map(|v| v.len()).unwrap_or(0) as i32;
+                    if d > op.last_event {
+                        fail!("C25/stall", "operation '{id}': the last event delivered to its source (delivery #{d}) was never forwarded although the connection is open and idle (last forwarded: #{})", op.last_event);
+                    }
+                    if (d as usize) > op.nexts {
+                        sim::count("probe:event-not-forwarded");
                     }
                     if ended_channels.contains(ch) {
                         fail!("C25/stall", "operation '{id}' was never completed although its source ended");
